@@ -175,8 +175,8 @@ func GenCase(r *rand.Rand, prop string, thorough bool) *Case {
 				p = "lib"
 			}
 			mode := weighted(r,
-				[]string{"stale", "tail", "tweaked", "noted", "noncompiling", "garbage", "constraint_only", "otherpkg", "torn", "longer", "dir", "noconstraint", "nul", "empty"},
-				[]int{10, 10, 12, 8, 10, 10, 8, 8, 12, 10, 5, 2, 2, 1})
+				[]string{"stale", "crlf", "tail", "tweaked", "noted", "noncompiling", "garbage", "constraint_only", "otherpkg", "torn", "longer", "dir", "noconstraint", "nul", "empty"},
+				[]int{10, 7, 10, 12, 8, 10, 10, 8, 8, 12, 10, 5, 2, 2, 1})
 			st := Step{Op: "corrupt", Pkg: p, Mode: mode, Cut: r.IntN(1001)}
 			if r.IntN(6) == 0 {
 				st.Prefix = "x_"
